@@ -100,7 +100,7 @@ func c07AsyncSequential(swapped bool) []SubscribeOption {
 	return []SubscribeOption{Async(), Sequential()}
 }
 
-//verif:entry property=C07 tier=both bounds="one Async+Sequential handler (options in either order; enter; yield; exit), K events published one after another by one goroutine; every interleaving of the dispatch goroutines within the preemption bound" cover="done" K_quick=2 K_thorough=3 preempt_quick=2 preempt_thorough=2 race=on
+//verif:entry property=C07 tier=both bounds="one Async+Sequential handler (options in either order; enter; yield; exit), K events published one after another by one goroutine, optionally behind one publish whose context has already ended; every interleaving of the dispatch goroutines within the preemption bound" cover="done" K_quick=2 K_thorough=3 preempt_quick=2 preempt_thorough=2 race=on
 func harnessC07AsyncOrder() {
 	K := vParam("K", 2)
 	bus := New()
@@ -120,6 +120,13 @@ func harnessC07AsyncOrder() {
 		inside--
 		mu.Unlock()
 	}, c07AsyncSequential(vBool())...)
+	// optionally one more publish in front whose context has already ended: it is skipped, and must not keep
+	// the events behind it from being delivered
+	if vBool() {
+		dead, cancel := context.WithCancel(context.Background())
+		cancel()
+		PublishContext(bus, dead, evA{N: 99})
+	}
 	for i := 0; i < K; i++ {
 		Publish(bus, evA{N: i})
 	}
